@@ -364,6 +364,33 @@ impl Sgr {
         well_formed
     }
 
+    /// Does the parameter list use, as a plain code, one of the codes that several property
+    /// statements leave out (blink 5/6, the resets 22-29, 59)?  Extended-colour arguments
+    /// (`38;5;n`, `38;2;r;g;b`) are skipped.
+    pub fn uses_unlisted_codes(groups: &[Vec<u16>]) -> bool {
+        let mut i = 0;
+        while i < groups.len() {
+            let g = &groups[i];
+            i += 1;
+            if g.len() != 1 {
+                continue;
+            }
+            match g[0] {
+                38 | 48 | 58 => {
+                    let single = |k: usize| groups.get(k).filter(|g| g.len() == 1).map(|g| g[0]);
+                    match single(i) {
+                        Some(5) => i += 2,
+                        Some(2) => i += 4,
+                        _ => return false, // malformed: reported by `apply`
+                    }
+                }
+                5 | 6 | 22..=29 | 59 => return true,
+                _ => {}
+            }
+        }
+        false
+    }
+
     /// Parse the text between `CSI` and `m` the way the VT parser groups it.
     pub fn parse_params(s: &str) -> Vec<Vec<u16>> {
         s.split(';')
